@@ -479,14 +479,16 @@ rand_backend!(rand_ntt120avx, NTT120Avx);
 // key) and the requested part is logged as ordinary "stat" events of the elementary layouts (ggsw / atk / tgk)
 macro_rules! cbk_backend {
     ($fname:ident, $BE:ty) => {
-        pub fn $fname(c: &Value, rep: u64) -> Result<Vec<Value>, String> {
+        /// ids = (LWE secret, GLWE secret, mask seed, error seed); part = "brk" | "atk" | "tsk" (events of that sub-key) or "all"
+        /// (no events: only the mask / body words of every cell of the three sub-keys, for the dependency experiments)
+        pub fn $fname(c: &Value, rep: u64, ids: (u64, u64, u64, u64), part: &str) -> Result<(Vec<Value>, Vec<i64>, Vec<i64>), String> {
             use poulpy_bin_fhe::blind_rotation::{BlindRotationKey, BlindRotationKeyLayout, CGGI};
             use poulpy_bin_fhe::circuit_bootstrapping::*;
             type BE = $BE;
             let n = gu(c, "n", 8) as usize;
             let rank = gu(c, "rank", 2) as u32;
             let nlwe = gu(c, "nlwe", 4) as u32;
-            let part = c["part"].as_str().unwrap().to_string();
+            let part = part.to_string();
             let lay = |k: &str| -> Vec<u32> { c[k].as_array().unwrap().iter().map(|v| v.as_u64().unwrap() as u32).collect() };
             let (lb, la, lt) = (lay("brk"), lay("atk"), lay("tsk")); // [b, size, dnum, dsize]
             let (sigma, bound) = (gu(c, "sigma10", 32) as f64 / 10.0, gu(c, "bound10", 192) as f64 / 10.0);
@@ -502,13 +504,12 @@ macro_rules! cbk_backend {
                     atk: NoiseInfos::new((la[0] * la[1]) as usize, sigma, bound).unwrap(),
                     tsk: NoiseInfos::new((lt[0] * lt[1]) as usize, sigma, bound).unwrap(),
                 };
-                let mut source_xs = Source::new(seed32(0xA000 + rep / 5));
-                let mut source_xe = Source::new(seed32(0xA100 + rep));
-                let mut source_xa = Source::new(seed32(0xA200 + rep));
+                let mut source_xe = Source::new(seed32(0xA100 + ids.3));
+                let mut source_xa = Source::new(seed32(0xA200 + ids.2));
                 let mut sk_lwe = LWESecret::alloc(Degree(nlwe));
-                sk_lwe.fill_binary_block(2, &mut source_xs);
+                sk_lwe.fill_binary_block(2, &mut Source::new(seed32(0xA300 + ids.0)));
                 let mut sk = GLWESecret::alloc(deg, Rank(rank));
-                sk.fill_ternary_prob(0.5, &mut source_xs);
+                sk.fill_ternary_prob(0.5, &mut Source::new(seed32(0xA000 + ids.1)));
                 let mut scratch = ScratchOwned::<BE>::alloc(1 << 20);
                 let mut key: CircuitBootstrappingKey<Vec<u8>, CGGI> = CircuitBootstrappingKey::alloc_from_infos(&infos);
                 key.encrypt_sk(&m, &sk_lwe, &sk, &enc, &mut source_xe, &mut source_xa, scratch.borrow());
@@ -539,8 +540,9 @@ macro_rules! cbk_backend {
                     e["panic"] = json!("");
                     out.push(e);
                 };
-                match part.as_str() {
-                    "brk" => {
+                let (mut mask, mut body): (Vec<i64>, Vec<i64>) = (vec![], vec![]);
+                {
+                    {
                         let head = len_brk - nlwe as usize * len_ggsw;
                         for i in 0..nlwe as usize {
                             let mut g = GGSW::alloc_from_infos(&brk_layout);
@@ -552,12 +554,15 @@ macro_rules! cbk_backend {
                             for r in 0..lb[2] as usize {
                                 for cc in 0..rank as usize + 1 {
                                     cells.push(dump_glwe_ref(&g.at(r, cc)));
+                                    split_glwe(&g.at(r, cc), &mut mask, &mut body);
                                 }
                             }
-                            ev("ggsw", &lb, json!({"sk": skd, "spt": spt}), cells);
+                            if part == "brk" {
+                                ev("ggsw", &lb, json!({"sk": skd, "spt": spt}), cells);
+                            }
                         }
                     }
-                    "atk" => {
+                    {
                         let mut off = len_brk;
                         let cnt = u64::from_le_bytes(blob[off..off + 8].try_into().unwrap()) as usize;
                         off += 8;
@@ -571,12 +576,15 @@ macro_rules! cbk_backend {
                             for r in 0..la[2] as usize {
                                 for i in 0..rank as usize {
                                     cells.push(dump_glwe_ref(&a.at(r, i)));
+                                    split_glwe(&a.at(r, i), &mut mask, &mut body);
                                 }
                             }
-                            ev("atk", &la, json!({"sk": skd, "p": p}), cells);
+                            if part == "atk" {
+                                ev("atk", &la, json!({"sk": skd, "p": p}), cells);
+                            }
                         }
                     }
-                    _ => {
+                    {
                         let mut t = GGLWEToGGSWKey::alloc_from_infos(&tsk_layout);
                         t.read_from(&mut &blob[blob.len() - len_tsk..]).unwrap();
                         let mut cells = vec![];
@@ -584,13 +592,16 @@ macro_rules! cbk_backend {
                             for r in 0..lt[2] as usize {
                                 for j in 0..rank as usize {
                                     cells.push(dump_glwe_ref(&t.at(i).at(r, j)));
+                                    split_glwe(&t.at(i).at(r, j), &mut mask, &mut body);
                                 }
                             }
                         }
-                        ev("tgk", &lt, json!({"sk": skd}), cells);
+                        if part == "tsk" {
+                            ev("tgk", &lt, json!({"sk": skd}), cells);
+                        }
                     }
                 }
-                out
+                (out, mask, body)
             })
         }
     };
@@ -718,7 +729,14 @@ pub fn run_rand(mods: &mut RMods, c: &Value, out: &mut dyn FnMut(Value)) {
             let mut runs: Vec<Value> = vec![];
             for be in 0..4 {
                 for (name, v) in vars.iter() {
-                    match mods.exec(be, c, *v) {
+                    // key bundles: the "plaintext" is the LWE secret; mask / body over every cell of the three sub-keys
+                    let res = if c["layout"] == "cbk" {
+                        (match be { 0 => cbk_fft64ref(c, 0, *v, "all"), 1 => cbk_fft64avx(c, 0, *v, "all"), 2 => cbk_ntt120ref(c, 0, *v, "all"), _ => cbk_ntt120avx(c, 0, *v, "all") })
+                            .map(|(_, mask, body)| Obj { mask, body, cells: vec![], seeds: vec![], ser_same: true, refc: vec![], drawn: vec![] })
+                    } else {
+                        mods.exec(be, c, *v)
+                    };
+                    match res {
                         Ok(o) => runs.push(json!({"be": be, "v": name, "pt": v.0, "sk": v.1, "xa": v.2, "xe": v.3, "mask": fnv(&o.mask), "body": fnv(&o.body), "nmask": o.mask.len(), "nbody": o.body.len(), "panic": ""})),
                         Err(p) => runs.push(json!({"be": be, "v": name, "pt": v.0, "sk": v.1, "xa": v.2, "xe": v.3, "mask": "", "body": "", "nmask": 0, "nbody": 0, "panic": p})),
                     }
@@ -735,14 +753,16 @@ pub fn run_rand(mods: &mut RMods, c: &Value, out: &mut dyn FnMut(Value)) {
                 let be = c.get("be").and_then(|v| v.as_u64()).map(|v| v as usize).unwrap_or((r % 4) as usize);
                 let v = (r + 10, r / 7 + 10, r + 10, r + 10);
                 if c["layout"] == "cbk" {
+                    let part = c["part"].as_str().unwrap();
+                    let ids = (r / 5, r / 5, r, r);
                     let res = match be {
-                        0 => cbk_fft64ref(c, r),
-                        1 => cbk_fft64avx(c, r),
-                        2 => cbk_ntt120ref(c, r),
-                        _ => cbk_ntt120avx(c, r),
+                        0 => cbk_fft64ref(c, r, ids, part),
+                        1 => cbk_fft64avx(c, r, ids, part),
+                        2 => cbk_ntt120ref(c, r, ids, part),
+                        _ => cbk_ntt120avx(c, r, ids, part),
                     };
                     match res {
-                        Ok(evs) => evs.into_iter().for_each(|mut e| {
+                        Ok((evs, _, _)) => evs.into_iter().for_each(|mut e| {
                             e["be"] = json!(be);
                             out(e)
                         }),
